@@ -1,6 +1,129 @@
 import Driver.Util
-open Lean
+import Driver.Status
+import DoitModel.Model.Intro
+open Lean DoitModel.Status DoitModel.Intro
 namespace Driver.P20
-/-- handler for requests with `"model": "c20"` (property-specific monitors / model queries of C20; stub until built) -/
-def handle (_ : Json) : Json := Driver.err "model not implemented"
+/-! requests with `"model": "c20"`.
+
+`{"model":"c20","mode":"model","ntasks":n,"npaths":n,"ops":[op…]}`: the ops of the status driver (model mode, see
+`Driver/Status.lean`) plus `["probe", {"lists":[[t…]…], "infos":[t…]}]`.  A probe does not advance the state: it
+answers what each read-only command would show and do *if issued at that point* --
+`decision` (per task, `Intro.decision`), per list (print order) `shown` (`Intro.listRun`), `removes`
+(`Intro.listRemoves`), `db` (after `Cmd.exec`); per info task `shown` (`Intro.infoShown`), `reasons`
+(`Intro.infoReasons`), `removes`, `db`, `ambiguous`.
+
+`{"model":"c20","mode":"monitor","checks":[check…]}` evaluates the clauses of the property statement on what the
+implementation was seen to do: `{"kind":"frame","ntasks":n,"before":[fp|null…],"after":[fp|null…],"ck":[bool…]}`
+(`Intro.frameHolds`), `{"kind":"agree","shown":w,"ran":w}` (`Intro.agreeHolds`). -/
+
+def shownStr : Shown → String
+  | .ignore => "ignore"
+  | .upToDate => "up-to-date"
+  | .run => "run"
+  | .error => "error"
+  | .crash => "crash"
+
+def parseShown (w : String) : Shown :=
+  match w with
+  | "ignore" => .ignore
+  | "up-to-date" => .upToDate
+  | "run" => .run
+  | "error" => .error
+  | _ => .crash
+
+def utdKind : Utd → String
+  | .const _ => "const"
+  | .noneItem => "none"
+  | .runOnce => "runOnce"
+  | .configChanged _ => "cfg"
+  | .resultDep _ => "res"
+  | .shell _ => "shell"
+  | .custom _ => "custom"
+
+def sortedNats (l : List Nat) : Json := ofNats (Driver.Status.sortNats l.eraseDups)
+
+def reasonsJ (x : Reasons) : Json :=
+  Json.mkObj [
+    ("noDeps", Json.bool x.noDeps),
+    ("utdFalse", ofStrs ((x.utdFalse.map utdKind).toArray.qsort (· < ·)).toList),
+    ("checkerChanged", match x.checkerChanged with
+      | none => Json.null
+      | some (a, b) => mkArr [Json.str (Driver.Status.ckStr a), Json.str (Driver.Status.ckStr b)]),
+    ("missingTarget", sortedNats x.missingTarget),
+    ("changed", sortedNats x.changed),
+    ("missingDep", sortedNats x.missingDep),
+    ("removed", sortedNats x.removed),
+    ("added", sortedNats x.added)]
+
+def dbJ (ntasks npaths : Nat) (s : St) : Json :=
+  mkArr ((List.range ntasks).map fun t => Driver.Status.rcdJ npaths (s.rcd t))
+
+def probeJ (ntasks npaths : Nat) (s : St) (spec : Json) : Json :=
+  let lists := (jarr spec "lists").map fun l => (asArr l).map asNat
+  let infos := jnats spec "infos"
+  Json.mkObj [
+    ("probe", Json.bool true),
+    ("crashed", Json.bool s.crashed),
+    ("decision", ofStrs ((List.range ntasks).map fun t => shownStr (decision s t))),
+    ("lists", mkArr (lists.map fun ts =>
+      let cmd := Cmd.list true ts
+      Json.mkObj [("shown", ofStrs ((listRun s ts).map shownStr)),
+                  ("removes", ofNats (cmd.removes s)),
+                  ("ambiguous", Json.bool (ts.any fun t => Driver.Status.ambiguousAt s t)),
+                  ("db", dbJ ntasks npaths (cmd.exec s))])),
+    ("infos", mkArr (infos.map fun t =>
+      let cmd := Cmd.info t false
+      Json.mkObj [("t", toJson t), ("shown", Json.str (shownStr (infoShown s t))),
+                  ("reasons", reasonsJ (infoReasons s t)),
+                  ("removes", ofNats (cmd.removes s)),
+                  ("ambiguous", Json.bool (Driver.Status.ambiguousAt s t)),
+                  ("db", dbJ ntasks npaths (cmd.exec s))])),
+    ("opensDb", Json.mkObj [
+      ("list -s", Json.bool (Cmd.list true []).opensDb), ("list", Json.bool (Cmd.list false []).opensDb),
+      ("info", Json.bool (Cmd.info 0 false).opensDb), ("info --no-status", Json.bool (Cmd.info 0 true).opensDb),
+      ("clean", Json.bool (Cmd.clean true false []).opensDb), ("help", Json.bool Cmd.help.opensDb),
+      ("dumpdb", Json.bool Cmd.dumpdb.opensDb), ("tabcompletion", Json.bool Cmd.tabcompletion.opensDb)]),
+    ("cleanDry", Json.mkObj [
+      ("removes", ofNats ((Cmd.clean true true (List.range ntasks)).removes s)),
+      ("db", dbJ ntasks npaths ((Cmd.clean true true (List.range ntasks)).exec s))])]
+
+def optFp (j : Json) : Option Nat := (j.getNat?).toOption
+
+def checkJ (j : Json) : Json :=
+  match jstr j "kind" with
+  | "frame" =>
+    let before := (jarr j "before").map optFp
+    let after := (jarr j "after").map optFp
+    let ck := (jarr j "ck").map Driver.Status.asBool
+    Json.mkObj [("holds", Json.bool (frameHolds (jnat j "ntasks")
+      (fun t => (before[t]?).getD none) (fun t => (after[t]?).getD none) (fun t => (ck[t]?).getD false)))]
+  | "agree" =>
+    Json.mkObj [("holds", Json.bool (agreeHolds (parseShown (jstr j "shown")) (parseShown (jstr j "ran"))))]
+  | k => Driver.err s!"unknown check {k}"
+
+def isProbe (j : Json) : Bool :=
+  match asArr j with
+  | [tag, _] => asStr tag = "probe"
+  | _ => false
+
+def handle (j : Json) : Json :=
+  if jstr j "mode" = "monitor" then
+    Json.mkObj [("checks", mkArr ((jarr j "checks").map checkJ))]
+  else
+    let ntasks := jnat j "ntasks"
+    let npaths := jnat j "npaths"
+    let (_, outs) := (jarr j "ops").foldl (fun (acc : St × List Json) op =>
+      if isProbe op then
+        (acc.1, probeJ ntasks npaths acc.1 ((asArr op).getD 1 Json.null) :: acc.2)
+      else
+        match Driver.Status.parseEv op with
+        | some (.op o) =>
+          let (s', out) := Driver.Status.modelStep true ntasks npaths acc.1 o
+          (s', out :: acc.2)
+        | some (.ignskip _) =>
+          let (s', out) := Driver.Status.modelStep true ntasks npaths acc.1 (.switchChecker acc.1.checker)
+          (s', out :: acc.2)
+        | _ => (acc.1, Driver.err "bad op" :: acc.2)) (St.init, [])
+    Json.mkObj [("steps", mkArr outs.reverse)]
+
 end Driver.P20
